@@ -69,9 +69,14 @@ def run(ctx):
     # confinement: the declared length present => trailing bytes never change value or outcome class
     conf = []
     rng = ctx.rng
-    for c in (exact + rej)[:(6000 if ctx.thorough else 800)]:
-        if c.op[0] == 'msg_handshake' and len(c.buf) >= 4 and len(c.buf) >= 4 + int.from_bytes(c.buf[1:4], 'big'):
-            conf.append((c, rng.randbytes(rng.choice((1, 3, 17)))))
+    elig = [c for c in exact if c.op[0] == 'msg_handshake' and len(c.buf) >= 4 and len(c.buf) >= 4 + int.from_bytes(c.buf[1:4], 'big')]
+    elig = rng.sample(elig, min(len(elig), 6000 if ctx.thorough else 800))
+    # every rejection shape too (a length that over-runs the message must not start reading what follows it), each with
+    # random bytes and with a complete further message behind it
+    for c in elig + [c for c in rej if c.op[0] == 'msg_handshake' and len(c.buf) >= 4 + int.from_bytes(c.buf[1:4], 'big')]:
+        conf.append((c, rng.randbytes(rng.choice((1, 3, 17)))))
+        if c.fam.startswith('reject/'):
+            conf.append((c, bytes([14, 0, 0, 0]) + hs(20, rng.randbytes(12)) + rng.randbytes(40)))
     lines = [c.line for c, s in conf] + [' '.join(c.op + (core.hexs(c.buf + s),)) for c, s in conf]
     impl, model = ctx.run_both(lines)
     N = len(conf)
